@@ -299,6 +299,21 @@ Crash ==             \* the process is lost; a new server is started on the same
     /\ UNCHANGED <<now, store, ideal>>
     /\ Log([op |-> "Crash", up |-> TRUE, alive |-> Alive(mem')])
 
+\* The process is lost while run-step of i externalises its result: somewhere between the first byte of the new state
+\* written (frac: "none" | "part" | "full" of the text is on disk) and its installation.  The new state is installed by an
+\* atomic rename AFTER it was written completely, so whatever the loss leaves behind is not the state of i: the new server
+\* works from the last installed state, the unanswered step never happened, and the leftover has no effect on any later
+\* request or save (it is logged for the harness only).
+StepLost(i, set, frac) ==
+    /\ "StepLost" \in Ops /\ Adapter /\ known[i] # Null /\ SelfAccessOK(i)
+    /\ Exists(i) /\ Ensure(mem, i)[i].sess # NoSess /\ \A j \in Inst : ~Locked(mem, j)
+    /\ Readable(i)
+    /\ mem' = [j \in Inst |-> IF Readable(j) THEN Restored(j) ELSE Null]
+    /\ known' = [j \in Inst |-> IF Readable(j) THEN [known[j] EXCEPT !.lastAcc = now]
+                                ELSE IF known[j] # Null THEN [known[j] EXCEPT !.lost = TRUE] ELSE known[j]]
+    /\ UNCHANGED <<now, store, ideal>>
+    /\ Log([op |-> "StepLost", i |-> i, set |-> set, frac |-> frac, alive |-> Alive(mem')])
+
 Tear(i) ==           \* the state file of i is damaged (torn write)
     /\ "Tear" \in Ops /\ Adapter /\ Readable(i)
     /\ store' = [store EXCEPT ![i] = Torn]
@@ -325,7 +340,7 @@ DoResults == \E i \in Inst : Results(i)
 DoKeepAlive == \E i \in Inst : KeepAlive(i)
 DoStop  == \E i \in Inst : StopInst(i)
 DoTick  == \E d \in Ticks : Tick(d)
-DoTear  == \E i \in Inst : Tear(i)
+DoTear  == \E i \in Inst : Tear(i) \/ (\E set \in (StepVals \cup {0 - 1}), frac \in {"none", "part", "full"} : StepLost(i, set, frac))
 DoRefused == \E kind \in Kinds, i \in Inst, cred \in Creds : Refused(kind, i, cred)
 Next == DoStart \/ DoBegin \/ DoEnd \/ DoStep \/ DoSteps \/ DoStream \/ DoResults \/ DoKeepAlive \/ DoStop \/ Metrics \/ DoTick
         \/ SaveState \/ LoadState \/ Crash \/ DoTear \/ DoRefused
